@@ -55,6 +55,8 @@ Radix(dummy) == \A a \in Vals, b \in {2, 3, 7, 10, 16, 36, 37, 61, 62} :
    /\ ZDigits(a, b, al) = P!ZDigits(a, b, al)
    /\ ZFromDigits(ZDigits(a, b, al), b, al) = ZAbs(a)
    /\ P!ZFromDigits(P!ZDigits(a, b, al), b, al) = P!ZAbs(a)
+   /\ StrStripWS(" " \o ZDigits(a, b, al) \o " \t" \o "x\n") = P!StrStripWS(" " \o ZDigits(a, b, al) \o " \t" \o "x\n")
+   /\ StrLower(ZDigits(a, b, al) \o "Zz-") = P!StrLower(ZDigits(a, b, al) \o "Zz-")
    /\ StrFirstBad(ZDigits(a, b, al) \o "~" \o "1", b, al) = P!StrFirstBad(P!ZDigits(a, b, al) \o "~" \o "1", b, al)
 
 CONSTANT Family
